@@ -65,6 +65,10 @@ pub struct Case {
     pub siblings: u8,
     #[serde(default)]
     pub siblings_first: bool,
+    /// configured shell only: after the build, verify with the same configuration (in-process);
+    /// the commands must go to the configured shell again, with the same contract
+    #[serde(default)]
+    pub verify_after: bool,
 }
 
 fn gen_case(c: &mut Choices) -> Case {
@@ -107,6 +111,7 @@ fn gen_case(c: &mut Choices) -> Case {
         killed: c.chance(1, 4),
         siblings: if c.chance(1, 2) { 1 + c.below(2) as u8 } else { 0 },
         siblings_first: c.chance(1, 2),
+        verify_after: c.chance(1, 2),
     }
 }
 
@@ -417,6 +422,32 @@ pub fn check(case: &Case, st: &mut Stats) -> Check {
                     return viol("C17 stdout-not-spliced", format!("output {got:?}, expected {want:?}"));
                 }
             }
+            if ok && case.verify_after {
+                let _ = std::fs::remove_file(&dump_log);
+                let _ = std::env::set_current_dir("/");
+                let v = runner::run_free(&base_abs, &opts.with_mode(ModeS::Verify));
+                st.class("verify_with_configured_shell");
+                if !v.ok {
+                    return viol(
+                        "C17 verify-ignores-configured-shell",
+                        format!("build with the configured shell succeeded, verify with the same configuration failed: {}", super::common::short_err(&v.err)),
+                    );
+                }
+                let recs = parse_dump(&std::fs::read_to_string(&dump_log).unwrap_or_default());
+                if recs.len() != n_cmds {
+                    return viol("C17 wrong-invocation-count verify", format!("verify invoked the configured shell {} times for {n_cmds} run directives", recs.len()));
+                }
+                for (rec, cmd) in recs.iter().zip(expected_cmds.iter()) {
+                    let mut want: Vec<String> = extra.clone();
+                    want.push(cmd.clone());
+                    if rec.cwd != src_dir_c || rec.args != want || !designates(&base_abs, &rec.file, &source) {
+                        return viol(
+                            "C17 wrong-invocation verify",
+                            format!("verify: the shell ran in {:?} with TXTPP_FILE {:?} and arguments {:?}; expected {src_dir_c:?} / the source / {want:?}", rec.cwd, rec.file, rec.args),
+                        );
+                    }
+                }
+            }
         }
     }
     Ok(())
@@ -453,7 +484,7 @@ impl Prop for C17 {
         PropMeta {
             id: "C17",
             level: "exploration",
-            rule: "cases = source at depth 0-3 below the base directory x entry point {library in-process with absolute base and unrelated cwd; library in a child process with cwd == base ('.'), cwd below base ('../..'), unrelated cwd (absolute base), cwd above base (relative name); the txtpp binary; the binary with TXTPP_FILE already set} x shell {default sh -c; an argv-dumping script with 0-2 extra configured arguments} x multi-line commands (0-3 continuation lines, prefix or space form, leading/trailing blanks) x exit status (0; 1-255 with the usual suspects favoured; a command that fails only the first time it runs and logs each execution; a shell killed by a signal) x input named by source or output name x 0-2 further sources in other directories of the same build running the textually identical `pwd` / `echo $TXTPP_FILE` commands. Oracle: `pwd` (or the dumper's cwd record) equals the canonical directory of the source; TXTPP_FILE joined to the base designates the source (absolute or base-relative accepted); the dumper received exactly the configured arguments followed by ONE argument equal to the lines joined by single spaces; stdout is spliced into the output; non-zero status fails the run (and the binary's exit status is non-zero); with TXTPP_FILE set the binary exits non-zero and changes nothing. Non-trivial = depth >=1 with base != cwd, or overridden shell, or multi-line command; distinct by hash.",
+            rule: "cases = source at depth 0-3 below the base directory x entry point {library in-process with absolute base and unrelated cwd; library in a child process with cwd == base ('.'), cwd below base ('../..'), unrelated cwd (absolute base), cwd above base (relative name); the txtpp binary; the binary with TXTPP_FILE already set} x shell {default sh -c; an argv-dumping script with 0-2 extra configured arguments} x multi-line commands (0-3 continuation lines, prefix or space form, leading/trailing blanks) x exit status (0; 1-255 with the usual suspects favoured; a command that fails only the first time it runs and logs each execution; a shell killed by a signal) x input named by source or output name x 0-2 further sources in other directories of the same build running the textually identical `pwd` / `echo $TXTPP_FILE` commands x (configured shell) a verify run after the build. Oracle: `pwd` (or the dumper's cwd record) equals the canonical directory of the source; TXTPP_FILE joined to the base designates the source (absolute or base-relative accepted); the dumper received exactly the configured arguments followed by ONE argument equal to the lines joined by single spaces; stdout is spliced into the output; non-zero status fails the run (and the binary's exit status is non-zero); with TXTPP_FILE set the binary exits non-zero and changes nothing. Non-trivial = depth >=1 with base != cwd, or overridden shell, or multi-line command; distinct by hash.",
             assumptions: vec!["the README says TXTPP_FILE is absolute while a repository fixture pins a base-relative value: only 'designates the source' is asserted"],
             hang_is_violation: false,
             needs_cli: true,
